@@ -23,6 +23,42 @@ CLAIMED = {
         technique='TLA+ spec (LogLik.tla) model-checked with TLC; spec->code replay of every enumerated configuration',
         design='6/C01'),
 }
+CLAIMED['C02'] = dict(
+    engine='PopLayout',
+    text='TLC checks, for every composition of population sub-models (Gaussian, log-normal, truncated Gaussian, pooled, '
+         'heterogeneous; 1-2 dimensions; centred or not; covariate wrapper; fixed subsets) x number of individuals within '
+         'the constants, that the published flat vector is a bijection onto slots, that counts, names and IDs describe the '
+         'slot at each position and that the transcribed index arithmetic of chi (special-dimension table, _shape_eta shift '
+         'loop, name slicing, ID copies, reduced-gradient scatter, reduced-model range shifts) equals the declarative '
+         'layout. Every enumerated composition is built from the real chi classes inside a real '
+         'HierarchicalLogLikelihood / HierarchicalLogPosterior; names, IDs and counts are compared literally and the score '
+         'with the documented sum evaluated through the specification layout.',
+    note='bounded: <=2 sub-models x <=2 dims x <=2 individuals x <=1 covariate x <=1 fixed (quick); <=3 sub-models, <=3 '
+         'individuals, <=2 covariates, <=2 fixed (thorough); numeric leaves via harness/interp.py; covariate selections '
+         'other than the default belong to C07',
+    technique='TLA+ spec (PopLayout.tla) model-checked with TLC; spec->code replay of every enumerated composition',
+    design='6/C02')
+CLAIMED['C03'] = dict(
+    engine='PopLayout',
+    text='The gradient assembly of chi (per-output scatter in LogLikelihood.evaluateS1: LogLik.tla GradIsDecl; per sub-model '
+         'reduced gradients scattered into the hierarchical vector: PopLayout.tla GradSlotOK/ScatterOK) is model-checked '
+         'against the declarative gradient for every configuration; every enumerated composition is then evaluated with '
+         'evaluateS1 and compared with the exact (complex-step) derivative of the documented log-pdf, position by position, '
+         'including the score equality with __call__, the posterior with a prior on the population block and re-evaluation '
+         'after S1.',
+    note='same bounds as C02; "equals the derivative" is decided numerically against harness/interp.py (tolerance 1e-7), '
+         'TLC decides the assembly; individual-level gradients are also exercised by the C01 replay',
+    technique='TLA+ specs (PopLayout.tla, LogLik.tla) model-checked with TLC; spec->code replay with exact-derivative oracle',
+    design='6/C03')
+CLAIMED['C17'] = dict(
+    engine='PopLayout',
+    text='Counts, names, IDs, special-dimension table and gradient lengths of every enumerated composition (incl. reduced '
+         'models wrapped before or after the number of individuals is set) are compared with each other and with the numbers '
+         'and strings the specification renders (Agree, UniqueDefault, SubOrder model-checked by TLC over the whole bounded '
+         'configuration space).',
+    note='same bounds as C02; reconfiguration histories beyond set_n_ids / fix are covered by other modules as they are built',
+    technique='TLA+ spec (PopLayout.tla) model-checked with TLC; spec->code replay comparing literal names and counts',
+    design='6/C17')
 
 NOT_YET = {
 }
